@@ -646,7 +646,7 @@ func (c *ExecCtx) boundsCheck(st *State, idx, n *Term, pos token.Pos, what strin
 func (c *ExecCtx) mapHeaps(mt *types.Map) (has, val, ln string, ks, vs string) {
 	tm := c.u.eng.tm
 	ks, vs = tm.SortOf(mt.Key()), tm.SortOf(mt.Elem())
-	base := "M." + sanitize(ks) + "." + sanitize(vs)
+	base := tm.mapHeapBase(mt)
 	return base + ".has", base + ".val", base + ".len", ks, vs
 }
 
